@@ -663,6 +663,40 @@ impl Prop for P {
         out
     }
 
+    /// Cones whose apex (0/0 gradient) sits on octree grid lines, and one sphere
+    /// per depth, before the random cases
+    fn fixed_cases(_tier: Tier) -> Vec<Case> {
+        let mut out = vec![];
+        for depth in 1..=5u8 {
+            for apex in [[0.0f32, 0.0, 0.0], [0.0, 0.0, 0.25], [0.25, -0.25, 0.125], [0.1, 0.0, 0.3]] {
+                for jit in [false, true] {
+                    out.push(Case {
+                        shape: Csg::Cone {
+                            apex: [Fl(apex[0]), Fl(apex[1]), Fl(apex[2])],
+                            k: Fl(0.8),
+                            h: Fl(0.6),
+                        },
+                        depth,
+                        xform: None,
+                        jit,
+                        threads: 0,
+                    });
+                }
+            }
+            out.push(Case {
+                shape: Csg::Sphere {
+                    c: [Fl(0.0), Fl(0.0), Fl(0.0)],
+                    r: Fl(0.6),
+                },
+                depth,
+                xform: None,
+                jit: false,
+                threads: 0,
+            });
+        }
+        out
+    }
+
     fn plan(tier: Tier) -> Plan {
         match tier {
             Tier::Quick => Plan {
